@@ -101,6 +101,18 @@ func NondetStringN(name string, n int, alphabet string) string { return NondetSt
 
 func Param(name string) int { return rf.Params[name] }
 
+func FieldUint64(v interface{}, field string) uint64 {
+	rv := reflect.ValueOf(v)
+	if rv.Kind() == reflect.Ptr {
+		rv = rv.Elem()
+	}
+	f := rv.FieldByName(field)
+	if !f.IsValid() {
+		panic("verifrt: FieldUint64: no field " + field)
+	}
+	return f.Uint()
+}
+
 func JSONValue(doc []byte) interface{} {
 	var v interface{}
 	if err := json.Unmarshal(doc, &v); err != nil {
